@@ -436,7 +436,7 @@ pub fn step_dddmp(s: &mut Mach, ins: &Instr, model: &mut Model, ctx: &mut RunCtx
 
     // ---- C14: import into fresh managers of every capacity up to what the file needs ----
     let identity = model.order.iter().enumerate().all(|(i, v)| i as u32 == *v);
-    if !faulty && !ctx.io_corrupt && !ctx.failed() && s.cfg.oom_ok && backend_has_capacity() && (KIND != Kind::Zbdd || identity) {
+    if crate::run::SWEEP_MODE.load(std::sync::atomic::Ordering::Relaxed) && !faulty && !ctx.io_corrupt && !ctx.failed() && s.cfg.oom_ok && backend_has_capacity() && (KIND != Kind::Zbdd || identity) {
         let used = s.mref.with_manager_shared(|m| m.num_inner_nodes()) as u32;
         let lo = if KIND == Kind::Zbdd { n + 4 } else { 0 };
         let hi = (lo + used + 2).min(99);
@@ -538,10 +538,7 @@ pub fn step_dddmp(s: &mut Mach, ins: &Instr, model: &mut Model, ctx: &mut RunCtx
             });
             // a manager released before its collector thread waits for signals leaks that thread
             // (and the store and the worker pool with it): see `Mach::drop`
-            let min = std::time::Duration::from_micros(crate::run::manager_min_lifetime_us());
-            while born.elapsed() < min {
-                std::thread::yield_now();
-            }
+            crate::run::await_manager_lifetime(born);
             drop(other);
             if left != 0 {
                 ctx.violate(&["C14", "C05"], "cross-kind-leak", format!("{:?}: after an import into a BDD manager of capacity {} and dropping everything, gc leaves {} inner nodes", ins, cap, left));
